@@ -462,3 +462,103 @@ Proof.
   split; [exact H|]. split; [exact Hi|]. split; [exact Hk|]. split; [exact U|].
   exists d. split; [exact Ev|]. split; [exact L1|]. rewrite L2. vm_compute. reflexivity.
 Qed.
+
+(* ================================================================================================== *)
+(* non-vacuity examples added after the reviewer's audit (Properties/C11_nv.v, 2026-10-01)         *)
+(* ================================================================================================== *)
+
+(* ==== non-vacuity instances obtained BY APPLYING the theorems above (added after review) ================== *)
+
+(* C11_write_order: special keys (_attributes) between the ordinary ones, numbered keys, an int key *)
+Example C11_write_order_nonvacuous :
+  let kvs := [(KS (of_string "_attributes"), Dict [(KS (of_string "id"), Leaf (SInt 7))]);
+              (KS (of_string "000001_name"), Leaf (SStr (of_string "two words")));
+              (KS (of_string "_content"), Leaf (SStr (of_string "text")));
+              (KS (of_string "000002_mass"), Leaf (SFloat (of_string "1.5")));
+              (KS (of_string "000003_name"), Dict [(KS (of_string "_content"), Leaf (SBool true))]);
+              (KI 4, Leaf SNone)] in
+  map (fun e => match e with Elem t _ _ _ => t end) (elem_children (populate (of_string "root") (Dict kvs))) =
+  map (fun kv => strip_numbering (key_text_xml (fst kv))) (filter (fun kv => negb (special_xml_key (key_text_xml (fst kv)))) kvs) /\
+  map (fun e => match e with Elem t _ _ _ => t end) (elem_children (populate (of_string "root") (Dict kvs))) =
+  [of_string "name"; of_string "mass"; of_string "name"; of_string "4"].
+Proof. intros kvs. split; [exact (C11_write_order (of_string "root") kvs) | vm_compute; reflexivity]. Qed.
+
+(* C11_read_entries, C11_read_order, C11_write_inverts_read, C11_cycle on C11_example (three levels, repeated tags,
+   attributes, typed, multi-line, empty and blank text), the counter two steps before the wrap-around: the eight
+   children of the root are numbered 999998 999999 000000 .. 000005 *)
+Lemma C11nv_ok : xml_ok C11_example = true /\ counter_ok 999997 /\ counter_ok (-1).
+Proof. split; [vm_compute; reflexivity|]. unfold counter_ok. repeat split; discriminate. Qed.
+
+Example C11_read_entries_nonvacuous :
+  xml_ok C11_example = true /\ counter_ok 999997 /\
+  unnumber (fst (xml_parse true C11_example 999997)) = xml_entries C11_example /\ xml_entries C11_example = C11_example_entries.
+Proof.
+  destruct C11nv_ok as (H & Hc & _). refine (conj H (conj Hc (conj (C11_read_entries _ _ H Hc) _))). vm_compute. reflexivity.
+Qed.
+
+Example C11_read_order_nonvacuous :
+  let e := C11_example in
+  (map unnumber_key (map fst (fst (xml_parse true e 999997))) = map (fun ch => KS (tag_of ch)) (elem_children e) /\
+   NoDup (map fst (fst (xml_parse true e 999997)))) /\
+  map fst (fst (xml_parse true e 999997)) =
+    map (fun s => KS (of_string s)) ["999998_a"; "999999_a"; "000000_b"; "000001_c"; "000002_d"; "000003_e"; "000004_f"; "000005_g"]%string /\
+  map (fun ch => KS (tag_of ch)) (elem_children e) = map (fun s => KS (of_string s)) ["a"; "a"; "b"; "c"; "d"; "e"; "f"; "g"]%string.
+Proof.
+  intros e. destruct C11nv_ok as (H & Hc & _). split; [exact (C11_read_order e _ H Hc)|]. split; vm_compute; reflexivity.
+Qed.
+
+Example C11_write_inverts_read_nonvacuous :
+  let e := C11_example in
+  populate (tag_of e) (Dict (fst (xml_parse true e 999997))) = normalise_root e /\
+  elem_children (normalise_root e) <> elem_children e /\
+  nth_error (elem_children (normalise_root e)) 1 = Some (Elem (s_ "a") [] (Some (s_ "True")) []) /\
+  nth_error (elem_children e) 1 = Some (Elem (s_ "a") [] (Some (s_ " true ")) []).
+Proof.
+  intros e. destruct C11nv_ok as (H & Hc & _). split; [exact (C11_write_inverts_read e _ H Hc)|].
+  split; [vm_compute; discriminate|]. split; vm_compute; reflexivity.
+Qed.
+
+(* the second read starts from a fresh counter: other node numbers, the same entries *)
+Example C11_cycle_applied :
+  let e := C11_example in
+  unnumber (fst (xml_parse true (populate (tag_of e) (Dict (fst (xml_parse true e 999997)))) (-1))) =
+  unnumber (fst (xml_parse true e 999997)) /\
+  map fst (fst (xml_parse true (populate (tag_of e) (Dict (fst (xml_parse true e 999997)))) (-1))) <> map fst (fst (xml_parse true e 999997)).
+Proof.
+  intros e. destruct C11nv_ok as (H & Hc & Hc2). split; [exact (C11_cycle e _ _ H Hc Hc2)|]. vm_compute. discriminate.
+Qed.
+
+(* C11_write_subtree_path: a key path of length three through a numbered key, an INT key and a numbered key, with special
+   keys and a comment placeholder in front (they make no element, so positions and keys differ); the subtree is a dict
+   with attributes, text, a numbered leaf, a list and a dict under an int key *)
+Definition C11nv_sub : tree :=
+  Dict [ (KS (sx "_attributes"), Dict [(KS (sx "u"), Leaf (SBool true))]);
+         (KS (sx "000007_d"), Leaf (SFloat (sx "2.50")));
+         (KS (sx "_content"), Leaf (SStr (sx "text of c")));
+         (KS (sx "e"), Lst [Leaf (SInt 1); Leaf (SStr (sx "two words"))]);
+         (KI 12, Dict [(KS (sx "_content"), Leaf SNone)]) ].
+Definition C11nv_dict : list (key * tree) :=
+  [ (KS (sx "_xmlOpts"), Dict [(KS (sx "_rootTag"), Leaf (SStr (sx "root")))]);
+    (KS (sx "000001_a"), Leaf (SInt 1));
+    (KS (sx "_attributes"), Dict [(KS (sx "id"), Leaf (SInt 7))]);
+    (KS (sx "000002_a"), Dict
+       [ (KS (sx "_content"), Leaf (SStr (sx "l1" ++ [c_lf] ++ sx "l2")));
+         (KS (sx "b"), Leaf SNone);
+         (KS (sx "INCLUDE"), Leaf (SStr (sx "x")));
+         (KI 4, Dict [ (KS (sx "LINECOMMENT000003"), Leaf (SStr (sx "LINECOMMENT000003"))); (KS (sx "000009_c"), C11nv_sub) ]) ]) ].
+Example C11_write_subtree_path_nonvacuous :
+  let p := [KS (sx "000002_a"); KI 4; KS (sx "000009_c")] in
+  get_dpath (Dict C11nv_dict) p = Some C11nv_sub /\ forallb ordinary_key p = true /\
+  xml_pos_path (Dict C11nv_dict) p = [1; 1; 0]%nat /\
+  (elem_at (populate (sx "root") (Dict C11nv_dict)) (xml_pos_path (Dict C11nv_dict) p) = Some (pop_child (KS (sx "000009_c"), C11nv_sub)) /\
+   tags_at (populate (sx "root") (Dict C11nv_dict)) (xml_pos_path (Dict C11nv_dict) p) = map xml_tag_of_key p) /\
+  pop_child (KS (sx "000009_c"), C11nv_sub) =
+    Elem (sx "c") [(sx "u", sx "true")] (Some (sx "text of c"))
+      [Elem (sx "d") [] (Some (sx "2.50")) []; Elem (sx "e") [] (Some (sx "1 two words")) []; Elem (sx "12") [] (Some (sx "None")) []] /\
+  map xml_tag_of_key p = [sx "a"; sx "4"; sx "c"].
+Proof.
+  intros p.
+  assert (H1 : get_dpath (Dict C11nv_dict) p = Some C11nv_sub) by (vm_compute; reflexivity).
+  assert (H2 : forallb ordinary_key p = true) by (vm_compute; reflexivity).
+  refine (conj H1 (conj H2 (conj _ (conj (C11_write_subtree_path _ _ (sx "root") _ _ H1 H2) (conj _ _))))); vm_compute; reflexivity.
+Qed.
